@@ -192,10 +192,12 @@ example : quietS.isCheck = false ∧ kingHasMove quietS = some true ∧ Shortcut
 
 /-- **C05_nonterminal_branch** (structural part of `C05_nonterminal`).  If `compute_legal_moves`
 returns at least one move (and the side to move has a king), `evaluate` returns the heuristic
-weighted sum — whether or not the `king_has_move` shortcut fired, in check or not. -/
+weighted sum, clamped to `[NEG_INF + 1, POS_INF - 1]` since the repair of defect F10
+(`eval.clamp(..)` at the end of `Evaluator::evaluate`) — whether or not the `king_has_move`
+shortcut fired, in check or not. -/
 theorem C05_nonterminal_branch (s : State) (c : Color) (d : Nat) (m : Move × State)
     (ms : List (Move × State)) (hm : legalMoves? s = some (m :: ms)) (hking : kingHasMove s ≠ none) :
-    evaluate s c d = some (evalHeuristic (Variation.of s) c) := by
+    evaluate s c d = some (clampHeuristic (evalHeuristic (Variation.of s) c)) := by
   cases hk : kingHasMove s with
   | none => exact absurd hk hking
   | some khm =>
@@ -234,6 +236,7 @@ theorem C05_nonterminal_partial (s : State) (c : Color) (d : Nat) (m : Move × S
     ∃ e, evaluate s c d = some e ∧ Ev.isTerminal e = false := by
   refine ⟨_, C05_nonterminal_branch s c d m ms hm hking, ?_⟩
   have h := C05_heuristic_bound s c
+  rw [clampHeuristic_id_natAbs (by omega)]
   have hp : Ev.posInf = 10000 := rfl
   have hn : Ev.negInf = -10000 := rfl
   unfold Ev.isTerminal
